@@ -10,6 +10,59 @@ class AnalysisError(Exception):
     """anchor vanished / unsupported construct / floor not met -> exit 2, never a silent pass"""
 
 
+class _Tagged:
+    """view of an expression tree in which one IfExp node is presented as a Name (for tempinline._eval_order)"""
+    def __new__(cls, root, ife):
+        class Sub(ast.NodeTransformer):
+            def visit_IfExp(self, n):
+                if n is ife:
+                    return ast.copy_location(ast.Name(id="__ifexp_marker__", ctx=ast.Load()), n)
+                return self.generic_visit(n)
+
+            def visit_Lambda(self, n):
+                return n
+        import copy
+        # shallow structural copy that keeps node identity for the search: copy the spine only
+        return Sub().visit(_spine_copy(root, ife))
+
+
+def _spine_copy(root, target):
+    """copy of `root` in which the nodes on the path to `target` are fresh objects and `target` itself is kept by identity"""
+    if root is target:
+        return root
+    if not any(n is target for n in ast.walk(root)):
+        return root
+    new = type(root)()
+    for fld, val in ast.iter_fields(root):
+        if isinstance(val, list):
+            setattr(new, fld, [_spine_copy(x, target) if isinstance(x, ast.AST) else x for x in val])
+        elif isinstance(val, ast.AST):
+            setattr(new, fld, _spine_copy(val, target))
+        else:
+            setattr(new, fld, val)
+    return ast.copy_location(new, root)
+
+
+def _replace_node_copy(stmt, old, new_expr):
+    """copy of statement `stmt` with the expression node `old` (by identity) replaced by a clone of `new_expr`"""
+    def rec(n):
+        if n is old:
+            return A.clone(new_expr)
+        if isinstance(n, ast.AST):
+            m = type(n)()
+            for fld, val in ast.iter_fields(n):
+                if isinstance(val, list):
+                    setattr(m, fld, [rec(x) for x in val])
+                else:
+                    setattr(m, fld, rec(val))
+            for a in ("lineno", "col_offset", "end_lineno", "end_col_offset"):
+                if hasattr(n, a):
+                    setattr(m, a, getattr(n, a))
+            return m
+        return n
+    return rec(stmt)
+
+
 class _LowerIfExp(ast.NodeTransformer):
     """normalisation: `x = A if C else B` and `return A if C else B` inside functions become if-statements, so the path rules
     see one form (behaviour-preserving: the test is evaluated once, then exactly one arm)"""
@@ -72,8 +125,44 @@ class _LowerIfExp(ast.NodeTransformer):
         new._lowered_ifexp = True
         return new
 
+    def _nested_split(self, node):
+        """`f(a, X if C else Y)` (expression statement / assignment / return) where everything evaluated before the conditional
+        expression is a plain name, constant or attribute: split into an if-statement with one copy of the statement per arm"""
+        from . import tempinline as TI
+        root = node.value
+        if root is None or not self.depth:
+            return None
+        cands = [x for x in ast.walk(root) if isinstance(x, ast.IfExp) and x is not root]
+        for ife in cands:
+            marker = "__ifexp_marker__"
+            # evaluate on the original tree: temporarily tag the IfExp
+            try:
+                TI._eval_order(_Tagged(root, ife), marker)
+            except TI._Found:
+                pass
+            except TI._Blocked:
+                continue
+            else:
+                continue
+
+            body_stmt = _replace_node_copy(node, ife, ife.body)
+            else_stmt = _replace_node_copy(node, ife, ife.orelse)
+            new = ast.copy_location(ast.If(test=ife.test, body=[self.visit(body_stmt)], orelse=[self.visit(else_stmt)]), node)
+            return new
+        return None
+
+    def visit_Expr(self, node):
+        self.generic_visit(node)
+        if isinstance(node.value, ast.Constant):
+            return node
+        return self._nested_split(node) or node
+
     def visit_Assign(self, node):
         self.generic_visit(node)
+        if self.depth and not isinstance(node.value, ast.IfExp):
+            r = self._nested_split(node)
+            if r is not None:
+                return r
         if self.depth and isinstance(node.value, ast.IfExp) and len(node.targets) == 1 and isinstance(node.targets[0], ast.Name):
             return self._split(node, lambda val: ast.Assign(targets=[A.clone(node.targets[0])], value=val, type_comment=None))
         return node
@@ -260,9 +349,7 @@ class Repo:
             owner = f
             while owner is not None and owner.cls is None:
                 owner = owner.parent
-            n = 0
-            if owner is not None:
-                n = TI.fold_aliases(f.node, kl.get(q, set()), stable.get(owner.cls.qual, set()))
+            n = TI.fold_aliases(f.node, kl.get(q, set()), stable.get(owner.cls.qual, set()) if owner is not None else set())
             n += TI.normalise_function(f.node, kl.get(q, set()))
             if n:
                 self.folded_temps += n
